@@ -38,6 +38,21 @@ def check_basis(ctx, kind, X, nm, idx):
         b = Custom(Uq.copy(), n_basis_modes=nm).fit()
     else:
         b = models.make_basis(kind, nm, random_state=3)
+        if rng.random() < 0.5:
+            # history: the same basis object was fitted on other data and queried before (nothing may be remembered)
+            X0 = np.array([[rng.randint(-6, 6) for _ in range(nf)] for _ in range(ne)], dtype=float)
+            base["X0"] = X0.tolist()
+            try:
+                b.fit(X0.copy())
+                for k in range(1, (b.n_basis_modes or 1) + 1):
+                    b.matrix_representation(n_basis_modes=k)
+                    b.matrix_inverse(n_basis_modes=k)
+                b.matrix_inverse()
+                ctx.count("reused_instance")
+            except ValueError:
+                pass
+            if kind == "identity" and nm is None:
+                b = models.make_basis(kind, nm, random_state=3)      # Identity() freezes its default (known finding of C15)
         try:
             b.fit(X.copy())
         except ValueError:
